@@ -404,7 +404,10 @@ class HistGen:
             sheets = {n: (h, c) for n, (h, c) in rich_sheets(rng).items()}
             r = flowutil.compile_workbook(sheets)
             if r[0] == "ok":
-                return json.loads(json.dumps(r[1], default=str))
+                # the uuids invented by this compilation become GIVEN ids of the file: draw them from the check's rng
+                ren = {}
+                text = UUID_RE.sub(lambda m: ren.setdefault(m.group(0), sheetgen.new_uuid(rng)), json.dumps(r[1], default=str))
+                return json.loads(text)
         return json.load(open(os.path.join(REPO, FIXTURE_JSON)))
 
     def pick_input(self, inputs, kinds, p_new=0.5, mostly_ok=False):
@@ -610,6 +613,19 @@ def judge(hist, runs, fresh, given, model_ids):
                 if res["state"]:
                     bad.append(("hidden-state-leak", f"fresh process, after {res['op']}: " + "; ".join(res["state"][:4])))
                     break
+    # (c) invented identifiers: never the same in two processes (two runs)
+    procs = [(f"PYTHONHASHSEED={s}", set().union(*[set(invented_in(t, given)) for t in texts[s]])) for s in seeds]
+    if fresh is not None and fresh.get("results"):
+        procs.append(("fresh process", set().union(*[set(invented_in(out_text(x), given)) for x in fresh["results"]])))
+    for i in range(len(procs)):
+        for j in range(i + 1, len(procs)):
+            both = procs[i][1] & procs[j][1]
+            if both:
+                bad.append(("invented-uuid-reused", f"uuid {sorted(both)[0]} was invented in two different processes ({procs[i][0]} and {procs[j][0]})"))
+                break
+        else:
+            continue
+        break
     # (c) invented identifiers: owners
     owner = {}
     for k, res in enumerate(base):
@@ -1022,7 +1038,7 @@ def run(ctx):
     v = ctx.v
     thorough = ctx.tier == "thorough"
     seeds = seeds_for(ctx)
-    n_hist = (250 if thorough else 44) * ctx.scale
+    n_hist = (250 if thorough else 95) * ctx.scale
     gstats = ctx.stats.setdefault("histories", {})
     ostats = ctx.stats.setdefault("oracle", {"histories": 0, "calls": 0, "worker_processes": 0, "ok": 0, "critical": 0, "raise": 0, "skipped": 0,
                                              "state_readings": 0, "fresh_comparisons": 0, "seed_comparisons": 0})
